@@ -3,6 +3,7 @@
 package kit
 
 import (
+	"os"
 	"time"
 
 	"github.com/KevoDB/kevo/zsim/simrt"
@@ -136,6 +137,7 @@ func (s Sched) Config() simrt.Config {
 	if TraceLimit > 0 {
 		c.TraceLimit = TraceLimit
 	}
+	c.EchoPrintf = os.Getenv("KEVOSIM_ECHO") != ""
 	if s.MaxVirtS > 0 {
 		c.MaxVirtual = time.Duration(s.MaxVirtS) * time.Second
 	}
